@@ -390,9 +390,34 @@ def diff(case, impl_out, model_out, scope):
             cb["S"] = [e for e in mqtt_normalise_events(cb["S"])]
             ca["S"] = [e for e in ca["S"]]
         for comp in scope:
-            if ca.get(comp) != cb.get(comp):
-                return k, comp, " ".join(map(str, ca.get(comp)))[:400], " ".join(map(str, cb.get(comp)))[:400]
+            va, vb = view(ca, comp), view(cb, comp)
+            if va != vb:
+                return k, comp, " ".join(map(str, va))[:400], " ".join(map(str, vb))[:400]
     return None
+
+
+def _fields(ev):
+    try:
+        return core.dec_str(ev[1]).rstrip("\n").split(";")
+    except Exception:     # noqa: BLE001
+        return []
+
+
+FILTERS = {
+    # sent lines a property is about (the other sent lines are outside its observation scope)
+    "S:idresp": lambda f: len(f) >= 5 and f[2] == "3" and f[4] == "4",                       # id responses
+    "S:ota": lambda f: len(f) >= 5 and (f[2] == "4" or (f[2] == "3" and f[4] == "13")),      # stream + reboot
+}
+
+
+def view(comp_map, comp):
+    """A component of an op's observation, optionally filtered ("S:idresp", "S:ota", "tree:nodes")."""
+    if comp in FILTERS:
+        return [e for e in comp_map.get("S", []) if FILTERS[comp](_fields(e))]
+    if comp == "tree:nodes":       # the node ids of the tree, in order
+        t = comp_map.get("tree", [])
+        return [t[i + 1] for i, x in enumerate(t[:-1]) if x == "N"]
+    return comp_map.get(comp)
 
 
 ALL = ["S", "CB", "R", "tree", "extra", "jobs", "dirty", "fw"]
